@@ -205,6 +205,16 @@ def run_impl(case):
                         "ep": int(d.nb_easy_pos), "en": int(d.nb_easy_neg), "sc": str(getattr(d.score_class, "value", d.score_class)),
                         "ec": str(getattr(d.equal_class, "value", d.equal_class)),
                         "cm": [[int(v) for v in m.reshape(-1)] for m in d.cm(thr).matrix]})
+    if len(pos) + len(neg):
+        # the documented flag is_sorted given explicitly as a false value that is not the literal False (the result of the caller's
+        # own NumPy check, or 0): the arrays are unsorted, so the constructor has to sort them
+        for flag_, tag_ in ((np.bool_(False), "is_sorted=np.False_"), (0, "is_sorted=0")):
+            d = Scores(pos.copy(), neg.copy(), nb_easy_pos=case["ep"], nb_easy_neg=case["en"], score_class=case["sc"],
+                       equal_class=case["ec"], is_sorted=flag_)
+            derived.append({"what": tag_, "pos": [enc(float(x)) for x in d.pos], "neg": [enc(float(x)) for x in d.neg],
+                            "ep": int(d.nb_easy_pos), "en": int(d.nb_easy_neg), "sc": str(getattr(d.score_class, "value", d.score_class)),
+                            "ec": str(getattr(d.equal_class, "value", d.equal_class)),
+                            "cm": [[int(v) for v in m.reshape(-1)] for m in d.cm(thr).matrix]})
     if case.get("derive") and len(pos) and len(neg):
         from score_analysis import BootstrapConfig, GroupScores
         rs = np.random.RandomState(case["derive"])
